@@ -101,6 +101,7 @@ def unit_pair(name="rot"):
 
     vs, vc = _vid(sn), _vid(cs)
     c.auxdef[vs] = ("alg", (Poly.const(1).sub(Poly.var(vc).pow(2)), 2))
+    c.alg[vs] = (2, Poly.const(1).sub(Poly.var(vc).pow(2)))  # eager rewrite s^2 -> 1 - c^2
     c.side.append(Cond(Poly.var(vc).pow(2).add(Poly.var(vs).pow(2)).sub(Poly.const(1)), "==", "c^2+s^2=1"))
     return cs, sn
 
